@@ -123,8 +123,9 @@ class CrashFile(object):
     truncate/flush/close, context manager), unbuffered so that one write() is
     one system call."""
 
-    def __init__(self, path, mode):
+    def __init__(self, path, mode, chunk=None):
         self.path = path
+        self.chunk = chunk       # library copy loops: a big copy is many write(2) calls
         if "w" in mode:
             _cur[0].point("create", path)
         self._f = io.open(path, mode, buffering=0)
@@ -148,6 +149,10 @@ class CrashFile(object):
 
     def write(self, b):
         b = bytes(b)
+        if self.chunk and len(b) > self.chunk:
+            for i in range(0, len(b), self.chunk):
+                self.write(b[i:i + self.chunk])
+            return len(b)
         _cur[0].point("write", self.path, self._f.tell(), b)
         mv = memoryview(b)
         done = 0
@@ -214,6 +219,40 @@ def _wrapped_open(path, mode="r", *a, **k):
     return io.open(path, mode, *a, **k)
 
 
+_fault = {"exdev": False}     # environment fault: shares/incoming is on another file system
+WATCH_CHUNK = 16
+
+
+def _watched_open(path, mode="r", *a, **k):
+    """builtins.open while the driver runs: binary writes to files below the
+    scratch store by code OUTSIDE the storage modules (library helpers such as
+    shutil.copyfile) are crash points too; a large library write is split into
+    WATCH_CHUNK-byte write calls (a real share is copied in many write(2)s)."""
+    try:
+        if (isinstance(path, str) and isinstance(mode, str) and "b" in mode and ("w" in mode or "+" in mode)
+                and "a" not in mode and "x" not in mode and _cur[0] is not None
+                and os.path.abspath(path).startswith(_watch_root())):
+            return CrashFile(path, mode, chunk=WATCH_CHUNK)
+    except Crash:
+        raise
+    return io.open(path, mode, *a, **k)
+
+
+def _watch_root():
+    return os.path.join(env.scratch(), "c29") + os.sep
+
+
+class TimeProxy(object):
+    """`time` inside fileutil: the rename/remove retry kludge sleeps 0.1+0.2+0.4 s."""
+
+    def __getattr__(self, name):
+        import time
+        return getattr(time, name)
+
+    def sleep(self, s):
+        return None
+
+
 class OsProxy(object):
     """Stands in for the `os` module inside the storage modules."""
 
@@ -221,6 +260,10 @@ class OsProxy(object):
         return getattr(os, name)
 
     def rename(self, a, b):
+        if _fault["exdev"] and ("incoming" in a.split(os.sep)) != ("incoming" in b.split(os.sep)):
+            import errno
+            _cur[0].point("rename-exdev", a, b)
+            raise OSError(errno.EXDEV, "Invalid cross-device link", a)
         _cur[0].point("rename", a, b)
         return os.rename(a, b)
 
@@ -269,6 +312,12 @@ def install():
         _saved[m] = (m.__dict__.get("open", None), m.os)
         m.open = _wrapped_open
         m.os = proxy
+    import builtins
+    from allmydata.util import fileutil
+    _saved_misc["builtins.open"] = builtins.open
+    builtins.open = _watched_open
+    _saved_misc["fileutil.time"] = fileutil.time
+    fileutil.time = TimeProxy()
     # speed only: ShareCrawler.__init__ base32-encodes 1024 prefixes for each of
     # the two crawlers of every StorageServer; same function, memoised
     _saved_misc["si_b2a"] = crawler.si_b2a
@@ -286,6 +335,12 @@ def uninstall():
             m.open = o
         m.os = osmod
     _saved.clear()
+    if "builtins.open" in _saved_misc:
+        import builtins
+        builtins.open = _saved_misc.pop("builtins.open")
+    if "fileutil.time" in _saved_misc:
+        from allmydata.util import fileutil
+        fileutil.time = _saved_misc.pop("fileutil.time")
     if "si_b2a" in _saved_misc:
         from allmydata.storage import crawler
         crawler.si_b2a = _saved_misc.pop("si_b2a")
@@ -369,6 +424,8 @@ class World(object):
                                                           Bx(bytes.fromhex(op["data"])))
         if k == "close":
             return "(ImmClose %s %s)" % (T.N(op["si"]), T.N(op["sh"]))
+        if k == "close_exdev":
+            return "(ImmCloseFailed %s %s)" % (T.N(op["si"]), T.N(op["sh"]))
         if k == "abort":
             return "(ImmAbort %s %s)" % (T.N(op["si"]), T.N(op["sh"]))
         if k == "add_lease":
@@ -430,6 +487,18 @@ class World(object):
             del self.bws[key]
             del self.inprogress[key]
             return
+        if k == "close_exdev":
+            # close() while rename(2) from incoming/ to the final place answers EXDEV
+            key = (op["si"], op["sh"])
+            bw = self.bws.pop(key)          # whatever happens, this writer is not used again
+            _fault["exdev"] = True
+            try:
+                bw.close()
+            finally:
+                _fault["exdev"] = False
+                if key in self.inprogress and os.path.exists(bw.finalhome):
+                    del self.inprogress[key]
+            return
         if k == "abort":
             key = (op["si"], op["sh"])
             self.bws[key].abort()
@@ -488,7 +557,7 @@ def covered_py(size, writes):
 def applicable(w, op):
     """write/close/abort need the BucketWriter an earlier allocate returned
     (a generated workload may name one the server did not grant)."""
-    if op["op"] in ("write", "hwrite", "close", "abort"):
+    if op["op"] in ("write", "hwrite", "close", "close_exdev", "abort"):
         return (op["si"], op["sh"]) in w.bws
     return True
 
@@ -702,7 +771,21 @@ def directed_workloads():
         {"op": "hwrite", "si": 1, "sh": 2, "off": 0, "data": hx(b"zz")},
         {"op": "hwrite", "si": 1, "sh": 2, "off": 2, "data": hx(b"yy")},
     ]
-    return [w_imm, w_mut, w_http]
+    # shares/incoming on another file system: rename(2) into the final place answers
+    # EXDEV.  Whatever close() does then, a kill at any point inside it must leave the
+    # share absent or complete.
+    w_exdev = [
+        {"op": "allocate", "si": 0, "shnums": [0, 1], "size": 40, "secret": 0},
+        {"op": "write", "si": 0, "sh": 0, "off": 0, "data": hx(bytes(range(100, 140)))},
+        {"op": "write", "si": 0, "sh": 1, "off": 3, "data": hx(b"p" * 30)},
+        {"op": "close_exdev", "si": 0, "sh": 0},
+        {"op": "close", "si": 0, "sh": 1},
+        {"op": "allocate", "si": 0, "shnums": [0, 2], "size": 40, "secret": 1},
+        {"op": "write", "si": 0, "sh": 2, "off": 0, "data": hx(b"q" * 40)},
+        {"op": "close_exdev", "si": 0, "sh": 2},
+        {"op": "add_lease", "si": 0, "secret": 2},
+    ]
+    return [w_imm, w_mut, w_http, w_exdev]
 
 
 def random_workload(r):
@@ -758,6 +841,11 @@ def random_workload(r):
                 ops.append({"op": "write", "si": key[0], "sh": key[1], "off": off, "data": hx(bytes([97 + (off + q) % 26 for q in range(ln)]))})
             elif c < 0.68 and mine:
                 key = r.choice(mine)
+                if r.random() < 0.2:
+                    ops.append({"op": "close_exdev", "si": key[0], "sh": key[1]})
+                    del inprog[key]
+                    http.pop(key, None)
+                    continue
                 ops.append({"op": "close", "si": key[0], "sh": key[1]})
                 del inprog[key]
                 http.pop(key, None)
@@ -836,7 +924,7 @@ def opkind(op):
             else:
                 kinds.add("write")
         return "mutable-" + "+".join(sorted(kinds))
-    return {"allocate": "immutable-allocate", "write": "immutable-write", "hwrite": "immutable-write-http", "close": "immutable-close",
+    return {"allocate": "immutable-allocate", "write": "immutable-write", "hwrite": "immutable-write-http", "close": "immutable-close", "close_exdev": "immutable-close-rename-fails-exdev",
             "abort": "immutable-abort", "add_lease": "lease-add-or-renew", "renew": "lease-renew"}[k]
 
 
@@ -1035,7 +1123,7 @@ class Runner(object):
         si = op.get("si")
         if k in ("allocate", "add_lease", "renew"):
             written = set((si, sh) for sh in range(NSH))
-        elif k in ("write", "hwrite", "close", "abort"):
+        elif k in ("write", "hwrite", "close", "close_exdev", "abort"):
             written = {(si, op["sh"])}
         else:
             written = set((si, sh) for sh, _ in op["tw"])
@@ -1096,7 +1184,7 @@ class Runner(object):
                 if pre[(si, sh)] == ABSENT and (si, sh) not in uploads:
                     uploads[(si, sh)] = {"size": op["size"], "writes": []}
         for key, u in sorted(uploads.items()):
-            closing = (k == "close" and key == (si, op["sh"]))
+            closing = (k in ("close", "close_exdev") and key == (si, op["sh"]))
             writes = list(u["writes"])
             v = post[key]
             if k == "hwrite" and key == (si, op["sh"]):
@@ -1135,7 +1223,10 @@ class Runner(object):
                 want[off:off + len(d)] = d
             if v[0] != "imm" or v[1] != bytes(want) or len(v[2]) != 1:
                 ctx.oracle_fail("immutable-share-neither-absent-nor-complete",
-                                "after a crash inside close() share %d/%d is served but does not hold what the uploader wrote" % key,
+                                ("after a crash inside close() share %d/%d " % key)
+                                + ("cannot be read (get_buckets raises) and is in the final place, so it is neither discarded nor complete"
+                                   if v == BAD else "is served but does not hold what the uploader wrote")
+                                + (" [rename(2) answered EXDEV: incoming/ on another file system]" if k == "close_exdev" else ""),
                                 case=case, expected={"data": bytes(want).hex(), "leases": 1}, observed=show(v))
         # a share that was complete and served before stays (covered by (1)/(2)); a
         # closed share whose close completed must be present
